@@ -218,7 +218,12 @@ def check(case):
     else:
         ok = abs(exact - total) < flt.ulp_frac(lead, f)
     if not ok:
-        out.append((tag + "/product-error", "%s(%s, %s, size=%s) = %s differs from the exact product by %.3g >= ulp(leading term)" % (op, show(s1), show(s2), size, [float(v) for v in r], float(exact - total))))
+        nzA = [v for v in A if v != 0]
+        nzB = [v for v in B if v != 0]
+        ovl = any(overlapping(x, y, f) for x, y in zip(nzA, nzA[1:])) or (op == "multiply" and any(overlapping(x, y, f) for x, y in zip(nzB, nzB[1:])))
+        rel = abs(exact - total) / (flt.ulp_frac(lead, f) if lead != 0 else f.smallest_subnormal)
+        cls = "product-error/size=1/overlapping-input" if (size == 1 and ovl) else tag + "/product-error" + ("/overlapping-input" if ovl else "")
+        out.append((cls, "%s(%s, %s, size=%s) = %s differs from the exact product by %.3g >= ulp(leading term)" % (op, show(s1), show(s2), size, [float(v) for v in r], float(exact - total))))
     return "in", out
 
 
@@ -301,9 +306,12 @@ def cases(draw):
         case["size"] = draw(st.sampled_from([None, None, 2, 3]))
     else:
         ml = 2 if fb == 16 else 3
-        case["seq1"] = draw(expansion(f, max_len=ml, proper=True, moderate=True))
-        case["seq2"] = draw(expansion(f, max_len=ml, proper=True, moderate=True)) if op == "multiply" else []
-        case["size"] = draw(st.sampled_from([None, None, 2, 3]))
+        proper = draw(st.booleans())
+        if not proper:
+            ml = 4  # overlapping terms (still decreasing magnitudes): the size limit matters most here
+        case["seq1"] = draw(expansion(f, max_len=ml, proper=proper, moderate=True))
+        case["seq2"] = draw(expansion(f, max_len=ml if proper else 2, proper=proper, moderate=True)) if op == "multiply" else []
+        case["size"] = draw(st.sampled_from([None, None, 2, 3, 1]))
     return case
 
 
